@@ -25,14 +25,33 @@ type VC struct {
 	prog     *Program
 }
 
-const prelude = `(declare-sort Str 0)
+const preludeCore = `(declare-sort Str 0)
+(declare-datatypes ((Slice 0)) (((mkSlice (sarr Int) (soff Int) (sllen Int) (scap Int)))))
+(declare-datatypes ((Iface 0)) (((mkIface (itag Int) (ival Int)))))
+(define-fun godiv ((a Int) (b Int)) Int (ite (>= a 0) (div a b) (- (div (- a) b))))
+(define-fun gomod ((a Int) (b Int)) Int (- a (* b (godiv a b))))
+(declare-fun band (Int Int) Int)
+(declare-fun bor (Int Int) Int)
+(declare-fun bxor (Int Int) Int)
+(declare-fun bshl (Int Int) Int)
+(declare-fun bshr (Int Int) Int)
+(declare-fun bandnot (Int Int) Int)
 (declare-fun slen (Str) Int)
 (declare-fun sat (Str Int) Int)
 (declare-fun scat (Str Str) Str)
 (declare-fun ssub (Str Int Int) Str)
 (declare-fun slt (Str Str) Bool)
 (declare-const str.empty Str)
-(assert (forall ((s Str)) (! (>= (slen s) 0) :pattern ((slen s)))))
+(declare-fun fptr (Int Int) Int)
+(declare-fun fptr.base (Int) Int)
+(declare-fun fptr.fld (Int) Int)
+(declare-fun str.of.int (Int) Str)
+(declare-fun int.of.str (Str) Int)
+(declare-fun bytes.str ((Array Int Int) Int Int) Str)
+`
+
+// quantified axioms, included only when the VC mentions the symbols they constrain
+const preludeStr = `(assert (forall ((s Str)) (! (>= (slen s) 0) :pattern ((slen s)))))
 (assert (= (slen str.empty) 0))
 (assert (forall ((s Str)) (! (=> (= (slen s) 0) (= s str.empty)) :pattern ((slen s)))))
 (assert (forall ((s Str) (i Int)) (! (and (<= 0 (sat s i)) (< (sat s i) 256)) :pattern ((sat s i)))))
@@ -44,24 +63,14 @@ const prelude = `(declare-sort Str 0)
 (assert (forall ((s Str) (a Int) (b Int) (c Int) (d Int)) (! (=> (and (<= 0 a) (<= a b) (<= b (slen s)) (<= 0 c) (<= c d) (<= d (- b a))) (= (ssub (ssub s a b) c d) (ssub s (+ a c) (+ a d)))) :pattern ((ssub (ssub s a b) c d)))))
 (assert (forall ((a Str)) (! (= (scat a str.empty) a) :pattern ((scat a str.empty)))))
 (assert (forall ((a Str)) (! (= (scat str.empty a) a) :pattern ((scat str.empty a)))))
-(assert (forall ((a Str)) (not (slt a a))))
-(declare-datatypes ((Slice 0)) (((mkSlice (sarr Int) (soff Int) (sllen Int) (scap Int)))))
-(declare-datatypes ((Iface 0)) (((mkIface (itag Int) (ival Int)))))
-(define-fun godiv ((a Int) (b Int)) Int (ite (>= a 0) (div a b) (- (div (- a) b))))
-(define-fun gomod ((a Int) (b Int)) Int (- a (* b (godiv a b))))
-(declare-fun fptr (Int Int) Int)
-(declare-fun fptr.base (Int) Int)
-(declare-fun fptr.fld (Int) Int)
-(assert (forall ((r Int) (f Int)) (! (and (= (fptr.base (fptr r f)) r) (= (fptr.fld (fptr r f)) f) (=> (not (= r 0)) (not (= (fptr r f) 0)))) :pattern ((fptr r f)))))
-(declare-fun band (Int Int) Int)
-(declare-fun bor (Int Int) Int)
-(declare-fun bxor (Int Int) Int)
-(declare-fun bshl (Int Int) Int)
-(declare-fun bshr (Int Int) Int)
-(declare-fun bandnot (Int Int) Int)
-(declare-fun str.of.int (Int) Str)
-(declare-fun int.of.str (Str) Int)
-(assert (forall ((i Int)) (! (= (int.of.str (str.of.int i)) i) :pattern ((str.of.int i)))))
+(assert (forall ((a Str)) (! (not (slt a a)) :pattern ((slt a a)))))
+`
+const preludeFptr = `(assert (forall ((r Int) (f Int)) (! (and (= (fptr.base (fptr r f)) r) (= (fptr.fld (fptr r f)) f) (=> (not (= r 0)) (not (= (fptr r f) 0)))) :pattern ((fptr r f)))))
+`
+const preludeItoa = `(assert (forall ((i Int)) (! (= (int.of.str (str.of.int i)) i) :pattern ((str.of.int i)))))
+`
+const preludeBytes = `(assert (forall ((a (Array Int Int)) (o Int) (n Int)) (! (=> (>= n 0) (= (slen (bytes.str a o n)) n)) :pattern ((bytes.str a o n)))))
+(assert (forall ((a (Array Int Int)) (o Int) (n Int) (i Int)) (! (=> (and (<= 0 i) (< i n)) (= (sat (bytes.str a o n) i) (select a (+ o i)))) :pattern ((sat (bytes.str a o n) i)))))
 `
 
 func NewVC(p *Program) *VC {
@@ -103,24 +112,39 @@ func (vc *VC) define(name string, s Sort, t Term) {
 func (vc *VC) assume(t Term) { vc.emit("(assert " + t + ")") }
 
 // Text renders the VC up to body index n (n<0: all).
-func (vc *VC) Text(n int) string {
-	var sb strings.Builder
-	sb.WriteString(prelude)
+func (vc *VC) Text(n int, extra string) string {
+	var rest strings.Builder
 	for _, s := range vc.sorts {
-		sb.WriteString(s)
-		sb.WriteByte('\n')
+		rest.WriteString(s)
+		rest.WriteByte('\n')
 	}
 	for _, s := range vc.funs {
-		sb.WriteString(s)
-		sb.WriteByte('\n')
+		rest.WriteString(s)
+		rest.WriteByte('\n')
 	}
 	if n < 0 || n > len(vc.body) {
 		n = len(vc.body)
 	}
 	for _, s := range vc.body[:n] {
-		sb.WriteString(s)
-		sb.WriteByte('\n')
+		rest.WriteString(s)
+		rest.WriteByte('\n')
 	}
+	r := rest.String() + extra
+	var sb strings.Builder
+	sb.WriteString(preludeCore)
+	if strings.Contains(r, "Str") || strings.Contains(r, "slen") || strings.Contains(r, "str.") {
+		sb.WriteString(preludeStr)
+	}
+	if strings.Contains(r, "fptr") {
+		sb.WriteString(preludeFptr)
+	}
+	if strings.Contains(r, "str.of.int") || strings.Contains(r, "int.of.str") {
+		sb.WriteString(preludeItoa)
+	}
+	if strings.Contains(r, "bytes.str") {
+		sb.WriteString(preludeBytes)
+	}
+	sb.WriteString(r[:len(r)-len(extra)])
 	return sb.String()
 }
 
